@@ -76,6 +76,8 @@ func slabVer(s atree.Slab) string {
 		switch x := cs[0].(type) {
 		case hx.TV:
 			return fmt.Sprintf("%d", x.Pay)
+		case slowTV:
+			return fmt.Sprintf("%d", x.Pay)
 		case badStorable:
 			return fmt.Sprintf("%d", verBad)
 		}
